@@ -115,6 +115,16 @@ Qed.
 Definition Pos (b : book) : Prop := forall i, (i < MaxPromises)%nat -> p_ts (getp b i) <> 0 ->
   SecondsInDay <= p_ts (getp b i) /\ 0 < p_clear (getp b i).
 
+Definition posb (b : book) : bool :=
+  forallb (fun i => (p_ts (getp b i) =? 0) || ((SecondsInDay <=? p_ts (getp b i)) && (0 <? p_clear (getp b i)))) (seq 0 MaxPromises).
+
+Lemma posb_spec (b : book) : posb b = true -> Pos b.
+Proof.
+  unfold posb. rewrite forallb_forall. intros H i Hi Hne. specialize (H i ltac:(apply in_seq; lia)).
+  apply orb_true_iff in H. destruct H as [H|H]; [apply Z.eqb_eq in H; contradiction|].
+  apply andb_true_iff in H. destruct H as [H1 H2]. apply Z.leb_le in H1. apply Z.ltb_lt in H2. split; assumption.
+Qed.
+
 Definition Wf (b : book) : Prop := forall i, (i < MaxPromises)%nat -> wfp (getp b i).
 
 Lemma Pos_empty : Pos empty_book.
